@@ -547,6 +547,11 @@ func driveC07(p *Pool, r *evid.Run) {
 			scns = append(scns, Scn{Kind: "refsend", Src: "c7long", Dst: dst, Cap: 64, Policy: pol, SelectAlts: true})
 		}
 	}
+	// leftovers with predictable temporary names; names beginning with two dots
+	for _, pol := range []string{"run", "recv"} {
+		scns = append(scns, Scn{Kind: "refsend", Src: "c7orphan", Dst: "c7orphan-old", Cap: 64, Policy: pol, SelectAlts: true},
+			Scn{Kind: "refsend", Src: "c7dots", Dst: "empty", Cap: 64, Policy: pol, SelectAlts: true}, Scn{Kind: "refsend", Src: "c7dots", Dst: "c7diff", Cap: 2, Policy: pol, SelectAlts: true})
+	}
 	// sends that return late, around the ordinary policies
 	for _, pol := range pols {
 		scns = append(scns, Scn{Kind: "refsend", Src: "c7tiny", Dst: "c7diff", Cap: 2, Policy: pol, SelectAlts: true, PostYield: true})
